@@ -9,7 +9,8 @@ import (
 )
 
 // paint stream: what App.layout + Surface.render do — Draw the root widget with Max = the
-// window size and render the returned surface tree into the root window of a real Vaxis.
+// window size and render the returned surface tree into a window of its own size (New(0,0,w,h)
+// of the root window of a real Vaxis), as App.Run does.
 func paintCase(s *hx.Stream, w *wspec, cols, rows int, tags ...string) {
 	e := &env{d: newDict(), chars: vaxis.Characters}
 	ctx := vxfw.DrawContext{Max: vxfw.Size{Width: uint16(cols), Height: uint16(rows)}, Characters: e.chars}
@@ -25,7 +26,8 @@ func paintCase(s *hx.Stream, w *wspec, cols, rows int, tags ...string) {
 		if err != nil {
 			panic("error returned: " + err.Error())
 		}
-		vxfw.VerifRender(sf, vx.Window(), nil)
+		// App.Run's call: the root is rendered into a window of its own size
+		vxfw.VerifRender(sf, vx.Window().New(0, 0, int(sf.Size.Width), int(sf.Size.Height)), nil)
 		for _, line := range vx.VerifScreenNext() {
 			r := make([]ch, len(line))
 			for i, c := range line {
